@@ -12,7 +12,7 @@ RULE = ('data::encode on structured inputs (capacity-boundary lengths first) x s
         'needs; (2) for inputs up to 48 bytes an exact search (tools/props/refenc.best_stream: reachability over position x codewords '
         'used x mode sub-state, every legal segmentation and end-of-data form) looks for a legal stream in any smaller listed '
         'capacity; a hit is re-validated by the reference decoder before it is reported; non-trivial = input of >= 4 bytes')
-THEOREMS = 'C10_first_fit, C10_order_is_capacity, C10_exact_fit_refuted'
+THEOREMS = 'C10_first_fit, C10_order_is_capacity, C10_exact_fit_refuted, C10_refusal_refuted'
 ASSUMPTIONS = ['refenc.py / refdec.py are independent readings of ISO/IEC 16022 5.2',
                'the exact search is bounded to short inputs (quick: <= 32 bytes, thorough: <= 48) and to 400000 search states']
 
@@ -67,14 +67,21 @@ def check_impl(c, out, ctx, prof):
         smaller = lst
     else:
         return None
+    # header codewords written before the data: FNC1 start is counted; ECI / macro configurations are left to the
+    # first-fit test above (their streams are judged by C02/C16)
+    pre = 1 if cfg.get('fnc1') else 0
+    if cfg.get('eci') is not None:
+        return None
+    if cfg.get('macros') and len(d) >= 9 and d[-2:] == gen.TRAIL and d[:7] in (gen.H05, gen.H06) and not cfg.get('fnc1'):
+        return None
     # plain ASCII / plain Base256 bounds
     bounds = []
     if m & 1:
-        bounds.append(('ASCII', len(refenc.ascii_items(d))))
+        bounds.append(('ASCII', pre + len(refenc.ascii_items(d))))
     if m & 32 and d:
         n = len(d)
         if n <= 1555:
-            bounds.append(('Base256', 1 + (1 if n <= 249 else 2) + n))
+            bounds.append(('Base256', pre + 1 + (1 if n <= 249 else 2) + n))
     for name, need in bounds:
         fit = next((i for i in lst if sp[i]['data'] >= need), None)
         if fit is not None and (sym is None or sp[fit]['data'] < sp[sym]['data']):
@@ -85,12 +92,21 @@ def check_impl(c, out, ctx, prof):
         for cap in sorted(set(sp[i]['data'] for i in smaller), reverse=True):
             if cap * 2 + 2 < len(d) // 2:
                 break
-            s = refenc.best_stream(d, m, cap)
+            s = refenc.best_stream(d, m, cap, prefix=[232] if pre else None)
             if s is not None:
                 rd = refdec.decode(s)
                 if rd['error'] is None and list(rd['data']) == d and len(s) == cap:
                     gap = 'refused' if sym is None else str(used - cap)
                     fit = 'exact-fit' if rd['pad_start'] is None else 'padded'
+                    if sym is None:
+                        # how long is the encoder's own stream when every size is available?
+                        line = gen.encode_line(d, gen.ALL48, m, cfg.get('macros', False), cfg.get('fnc1', False), None)
+                        o2 = ctx.impl([line], prof)[0]
+                        if o2.startswith('ok '):
+                            d2 = ints(o2.split(' ')[2])
+                            r2 = refdec.decode(d2)
+                            u2 = len(d2) if r2['error'] or r2['pad_start'] is None else r2['pad_start']
+                            gap = 'refused gap_all=%d' % (u2 - cap)
                     return 'a legal stream of %d codewords exists (%s), encoder %s [gap=%s witness=%s]' % (
                         cap, ','.join(map(str, s[:60])), 'refused the data' if sym is None else 'used %d' % sp[sym]['data'], gap, fit)
     return None
@@ -101,6 +117,8 @@ def classify(c, out, why):
     at most two codewords longer than a legal stream that ends, without padding, exactly at a smaller listed capacity"""
     if 'a legal stream of' in why and 'witness=exact-fit' in why and ('gap=1 ' in why or 'gap=2 ' in why):
         return 'C10-exact-fit'
+    if 'a legal stream of' in why and 'witness=exact-fit' in why and ('gap=refused gap_all=1 ' in why or 'gap=refused gap_all=2 ' in why):
+        return 'C10-exact-fit-refusal'
     return None
 
 
